@@ -104,13 +104,13 @@ def run_case(cls, key, seed, ctx):
                     for c in (0.0, 1.0))
     ctx.ev("objective_values_compared")
     ctx.check(best is not None and abs(got - best) <= 1e-9, "fitted_rule_objective_differs_from_optimum_of_the_stated_family", fitted=got,
-              optimum=best, optimum_x=bestx, interpolation=idict, **wit)
-    ctx.check(got >= const - 1e-9, "fitted_rule_worse_than_best_constant_classifier", fitted=got, best_constant=const, interpolation=idict, **wit)
+              optimum=best, optimum_x=bestx, interpolation=idict, wit=wit)
+    ctx.check(got >= const - 1e-9, "fitted_rule_worse_than_best_constant_classifier", fitted=got, best_constant=const, interpolation=idict, wit=wit)
     xbar = float(np.mean(xs))
     ctx.ev("grid_membership_checks")
-    ctx.check(abs(xbar * gs - round(xbar * gs)) <= 1e-7 * max(1, gs), "common_constraint_value_not_on_the_grid", value=xbar, per_group=xs, **wit)
+    ctx.check(abs(xbar * gs - round(xbar * gs)) <= 1e-7 * max(1, gs), "common_constraint_value_not_on_the_grid", value=xbar, per_group=xs, wit=wit)
     if constraint != "equalized_odds" and (cls == "rand" and key % 5 == 0) and bestx is not None:
         lp = lp_optimum_simple(groups, constraint, objective, flip, bestx)
         if lp is not None:
             ctx.ev("lp_cross_checks")
-            ctx.check(abs(lp - best) <= 1e-7, "reference_envelope_disagrees_with_linear_program", envelope=best, lp=lp, **wit)
+            ctx.check(abs(lp - best) <= 1e-7, "reference_envelope_disagrees_with_linear_program", envelope=best, lp=lp, wit=wit)
